@@ -20,7 +20,8 @@ ALSO = {"C08a": ["C12"], "C10a": ["C12"], "C11b": ["C12"], "C12a": ["C08"], "C12
         "C13c": ["C15", "C03"], "C12c": ["C08"], "C07b": ["C06"], "C05d": ["C12"], "C07c": ["C06"], "C17d": ["C16"], "C03d": ["C04"],
         "C04e": ["C08"], "C06d": ["C07", "C15"],
         "C20e": ["C11", "C08"], "C03f": ["C13", "C15"], "C07e": ["C06", "C12"], "C01f": ["C18"], "C05f": ["C04"], "C18e": ["C13"],
-        "C04f": ["C03", "C16"], "C16g": ["C05"], "C13f": ["C01"], "C09e": ["C08"], "C07f": ["C06"]}
+        "C04f": ["C03", "C16"], "C16g": ["C05"], "C13f": ["C01"], "C09e": ["C08"],
+        "C01g": ["C18", "C03"], "C15g": ["C16"], "C16h": ["C05"], "C06f": ["C07"]}
 
 
 def run(sid, all_checks=False):
